@@ -4,7 +4,7 @@
 # revert. One line per seed: id <TAB> checks that exited 1 <TAB> checks that exited otherwise non-zero <TAB> seconds
 OUT="$1"; shift
 IDS="$@"; [ -z "$IDS" ] && IDS=$(ls /verif/seeded | grep '^C')
-REPO=/tmp/mx/repo; VERIF=/tmp/mx/verif
+REPO=${MX:-/tmp/mx}/repo; VERIF=${MX:-/tmp/mx}/verif
 mkdir -p /tmp/scratch/vout-mx
 for id in $IDS; do
   P=/verif/seeded/$id/patch.diff; own=${id%-*}
